@@ -41,10 +41,15 @@ def sym_weights(g, S, m, kind="psd", bits=4):
 
 
 def make_data(g, ps, n, zeros=False):
+    """empirical distributions with a DIFFERENT number of shots per schedule (factors 1, 5, 25, 2, 10 … in a random
+    rotation), so that per-schedule quantities (inverse-covariance weights) cannot be computed from one shot count"""
     data = []
-    for p in ps:
+    factors = [1, 5, 25, 2, 10, 3]
+    rot = int(g.integers(0, len(factors)))
+    for j, p in enumerate(ps):
         p = np.clip(p, 0, None); p = p / p.sum()
-        nn = max(2, n if not zeros else min(n, 4))
+        base = n if not zeros else min(n, 4)
+        nn = max(2, base * factors[(j + rot) % len(factors)]) if not zeros else max(2, base + (j + rot) % 4)
         data.append((nn, g.multinomial(nn, p) / nn))
     return data
 
